@@ -75,6 +75,8 @@ def catalogue(rng, defn, vname):
         out.append(("wrong-size", head + '<oneBLOB name="%s" size="99" format=".x">QUJD</oneBLOB>' % e0 + tail, []))
         out.append(("size-not-a-number", head + '<oneBLOB name="%s" size="big" format=".x">QUJD</oneBLOB>' % e0 + tail, []))
         out.append(("missing-size", head + '<oneBLOB name="%s" format=".x">QUJD</oneBLOB>' % e0 + tail, []))
+        for sz in ("inf", "-inf", "Infinity", "nan", "1e999", "3.0", "3e0", "-1", "0x3", "99999999999999999999999999", "3 3", ""):
+            out.append(("size-spelled-%s" % (sz or "empty"), head + '<oneBLOB name="%s" size="%s" format=".x">QUJD</oneBLOB>' % (e0, sz) + tail, []))
         out.append(("empty-blob-absent-text", head + '<oneBLOB name="%s" size="0" format=".x"/>' % e0 + tail, [(vname, 0)]))
     out.append(("client-sends-def", '<defTextVector device="%s" name="%s" state="Ok" perm="rw"><defText name="%s">spoof</defText></defTextVector>' % (dev, vname, e0), []))
     out.append(("client-sends-set", '<set%sVector device="%s" name="%s" state="Alert"/>' % (K, dev, vname), []))
